@@ -18,15 +18,15 @@ Proof.
 Qed.
 
 (** * a geometry depends on its surface function only at its columns *)
-Definition set_params (g : rgeo) (atmvol atmconn : Qc) (s : nat -> nat -> Qc) : rgeo :=
-  mkRgeo (gox g) (goy g) (goz g) (gdx g) (gdy g) (gdz g) (gatm g) atmvol atmconn s.
+Definition set_params (g : rgeo) (atmvol atmconn atmz : Qc) (s : nat -> nat -> Qc) : rgeo :=
+  mkRgeo (gox g) (goy g) (goz g) (gax g) (gay g) (gdx g) (gdy g) (gdz g) (gatm g) atmvol atmconn atmz s.
 
 Section Ext.
 Variable g : rgeo.
 Variable s : nat -> nat -> Qc.
 Hypothesis ES : forall i j, (i < nx g)%nat -> (j < ny g)%nat -> s i j = gsurf g i j.
-Variable av' ac' : Qc.
-Notation g' := (set_params g av' ac' s).
+Variable av' ac' az' : Qc.
+Notation g' := (set_params g av' ac' az' s).
 
 Lemma has_ext k i j : (i < nx g)%nat -> (j < ny g)%nat -> has g' k i j = has g k i j.
 Proof. intros Hi Hj. unfold has. cbn [gsurf set_params]. rewrite (ES i j Hi Hj). reflexivity. Qed.
@@ -56,7 +56,7 @@ Section ExtSame.
 Variable g : rgeo.
 Variable s : nat -> nat -> Qc.
 Hypothesis ES : forall i j, (i < nx g)%nat -> (j < ny g)%nat -> s i j = gsurf g i j.
-Notation g' := (set_params g (gatmvol g) (gatmconn g) s).
+Notation g' := (set_params g (gatmvol g) (gatmconn g) (gatmz g) s).
 
 Lemma cells_ext : cells g' = cells g.
 Proof.
@@ -113,12 +113,10 @@ Proof.
   rewrite (map_nth (fun c : nat * nat => h (fst c) (snd c)) (colidx n m) (0%nat, 0%nat) (j * n + i)). rewrite (nth_colidx n m i j Hi Hj). reflexivity.
 Qed.
 
-Definition pos_x (p : posres) : Qc := match p with PosXY x _ => x | _ => 0 end.
-Definition pos_y (p : posres) : Qc := match p with PosXY _ y => y | _ => 0 end.
 (** the geometry a result of rectgeo describes; atmosphere type, volume and connection distance are
     parameters of the generation (rectgeo takes the type as an argument and does not return the others) *)
-Definition rebuilt {K} (r : result K) (atm : nat) (atmvol atmconn : Qc) : rgeo :=
-  mkRgeo (pos_x (r_pos r)) (pos_y (r_pos r)) (r_oz r) (r_dx r) (r_dy r) (r_dz r) atm atmvol atmconn
+Definition rebuilt {K} (r : result K) (atm : nat) (atmvol atmconn atmz : Qc) : rgeo :=
+  mkRgeo (pos_x (r_pos r)) (pos_y (r_pos r)) (r_oz r) (pos_ax (r_pos r)) (pos_ay (r_pos r)) (r_dx r) (r_dy r) (r_dz r) atm atmvol atmconn atmz
          (list_surf (length (r_dx r)) (r_surf r) (r_oz r)).
 
 Section Regen.
@@ -143,15 +141,15 @@ Lemma surf_ext : forall i j, (i < nx g)%nat -> (j < ny g)%nat -> list_surf (nx g
 Proof. intros i j Hi Hj. unfold surf_list. apply list_surf_colidx; assumption. Qed.
 
 (** the pruned block map sends the new name of every cell of the original geometry to its original name *)
-Lemma apply_map_present x0 y0 c : present g c -> apply_map K keqb (pruned_log K keqb g nm nm' x0 y0) (nm' c) = nm c.
+Lemma apply_map_present p c : present g c -> apply_map K keqb (pruned_log K keqb g nm nm' p) (nm' c) = nm c.
 Proof.
   intros P. unfold apply_map, pruned_log.
-  rewrite (HZ lookup_filter (fun k => key_in K keqb k (map (fun c0 => nm' (cc c0)) (cells (regeo g x0 y0))))).
+  rewrite (HZ lookup_filter (fun k => key_in K keqb k (map (fun c0 => nm' (cc c0)) (cells (regeo g p))))).
   - rewrite (HZ full_log_lookup c P). reflexivity.
   - unfold key_in. apply existsb_exists. exists (nm' c). split; [|apply keqb_spec; reflexivity].
-    apply in_map_iff. exists (cellof (regeo g x0 y0) c). split; [rewrite cc_cellof; reflexivity|].
+    apply in_map_iff. exists (cellof (regeo g p) c). split; [rewrite cc_cellof; reflexivity|].
     apply present_in_cells.
-    change (regeo g x0 y0) with (mkRgeo x0 y0 (goz g) (gdx g) (gdy g) (gdz g) (gatm g) 0 0 (list_surf (nx g) (surf_list g) (goz g))).
+    change (regeo g p) with (mkRgeo (pos_x p) (pos_y p) (goz g) (pos_ax p) (pos_ay p) (gdx g) (gdy g) (gdz g) (gatm g) 0 0 (goz g) (list_surf (nx g) (surf_list g) (goz g))).
     destruct c as [|[|k] i j]; cbn [present] in P |- *; try exact P.
     destruct P as [[Hk1 Hk2] [Hi [Hj Hh]]]. repeat split; try assumption.
     unfold has in *. cbn [gsurf]. rewrite (surf_ext i j Hi Hj). exact Hh.
@@ -161,18 +159,18 @@ Qed.
     blocks (names, volumes, centres, order) and the connections (names, orientation, direction,
     distances, areas, order) of the original grid *)
 Theorem regenerates_exact (r : result K) :
-  r = mkResult (gdx g) (gdy g) (gdz g) (PosXY (gox g) (goy g)) (goz g) (surf_list g) (pruned_log K keqb g nm nm' (gox g) (goy g)) ->
+  r = mkResult (gdx g) (gdy g) (gdz g) (PosAx (gox g) (goy g) (gax g) (gay g)) (goz g) (surf_list g) (pruned_log K keqb g nm nm' (PosAx (gox g) (goy g) (gax g) (gay g))) ->
   let f := fun c => apply_map K keqb (r_map r) (nm' c) in
-  let g' := rebuilt r (gatm g) (gatmvol g) (gatmconn g) in
+  let g' := rebuilt r (gatm g) (gatmvol g) (gatmconn g) (gatmz g) in
   rect_blocks f g' = rect_blocks nm g /\ rect_conns f g' = rect_conns nm g.
 Proof.
   intros -> f g'.
-  assert (EG : g' = set_params g (gatmvol g) (gatmconn g) (list_surf (nx g) (surf_list g) (goz g))) by reflexivity.
+  assert (EG : g' = set_params g (gatmvol g) (gatmconn g) (gatmz g) (list_surf (nx g) (surf_list g) (goz g))) by reflexivity.
   subst f. cbn [r_map]. split.
   - unfold rect_blocks. rewrite EG, (cells_ext g _ surf_ext). apply map_ext_in. intros c Hc.
-    apply in_cells_iff in Hc. destruct Hc as [P _]. unfold mk_block. rewrite (apply_map_present _ _ _ P). reflexivity.
+    apply in_cells_iff in Hc. destruct Hc as [P _]. unfold mk_block. rewrite (apply_map_present _ _ P). reflexivity.
   - unfold rect_conns. rewrite EG, (links_ext g _ surf_ext). apply map_ext_in. intros l Hl.
     apply in_links_iff in Hl. destruct (link_ends_present g l Hl) as [Pa Pb]. unfold mk_conn.
-    rewrite (apply_map_present _ _ _ Pa), (apply_map_present _ _ _ Pb). reflexivity.
+    rewrite (apply_map_present _ _ Pa), (apply_map_present _ _ Pb). reflexivity.
 Qed.
 End Regen.
